@@ -155,7 +155,41 @@ def build_problem(case):
             sp['comps'] = [1, 2, 3]
         feats['conv_approx'] = True
     feats['tdep'] = tdep
+    feats['units'] = None
+    if rng.random() < 0.35:
+        # written in user units, neighbouring positions of one type that
+        # share a boundary condition on ONE Assignment line (their powers
+        # still differ)
+        P['merge_lines'] = True
+        prev = None
+        for q in P['positions']:
+            if prev is not None and q['ring'] == prev['ring'] and \
+                    q['pos'] == prev['pos'] + 1 and \
+                    q['type'] == prev['type'] and rng.random() < 0.8:
+                for k in ('flowrate', 'outlet_temp', 'delta_temp'):
+                    q.pop(k, None)
+                    if k in prev:
+                        q[k] = prev[k]
+                q['nominal_flowrate'] = prev['nominal_flowrate']
+            prev = q
+        feats['units'] = {'length': wl.choose(rng, ['m', 'cm', 'in']),
+                          'temp': wl.choose(rng, ['K', 'K', 'C', 'F']),
+                          'mass': wl.choose(rng, ['lb', 'lb', 'kg']),
+                          'time': wl.choose(rng, ['s', 's', 'min', 'hr'])}
+        feats['merged_positions'] = sum(
+            1 for a, b in zip(P['positions'][:-1], P['positions'][1:])
+            if a['ring'] == b['ring'] and b['pos'] == a['pos'] + 1
+            and a['type'] == b['type'] and all(
+                a.get(k) == b.get(k) for k in ('flowrate', 'outlet_temp',
+                                               'delta_temp')))
     return P, feats
+
+
+def in_units(P, feats):
+    if not feats.get('units'):
+        return P
+    from vmon.oracle import c17_units as U
+    return U.convert_problem(P, U.Units(**feats['units']))
 
 
 def standalone_problem(P, k0):
@@ -217,7 +251,7 @@ def run_case(case):
                           {'paths': bad})
 
         with drive.scratch() as d, Hooks() as hk:
-            inp, r = drive.build(P, d, max_steps=MAX_STEPS)
+            inp, r = drive.build(in_units(P, feats), d, max_steps=MAX_STEPS)
             state['r'] = r
             n = len(r.z) - 1
             state['pts'] = set([1, max(1, n // 2), n])
@@ -253,7 +287,8 @@ def run_case(case):
                 t2.append(record_fields(args[0]))
 
             with drive.scratch() as d, Hooks() as hk:
-                inp2, r2 = drive.build(Q, d, max_steps=MAX_STEPS)
+                inp2, r2 = drive.build(in_units(Q, feats), d,
+                                       max_steps=MAX_STEPS)
                 same = (len(r2.z) == len(zcore) and
                         np.allclose(r2.z, zcore, rtol=0, atol=1e-12))
                 if not same:
@@ -280,6 +315,11 @@ def run_case(case):
                       dict(key, shares_type=bool(n_same > 1)),
                       {'asm': int(k0), 'worst': worst})
         res.tag('n_asm=%d' % len(ids))
+        res.tag('units=%s' % ('user+merged_lines' if feats.get('units')
+                              else 'SI'))
+        if feats.get('units'):
+            res.tag('positions_sharing_a_line=%d'
+                    % feats.get('merged_positions', 0))
         res.tag('tdep=%s' % feats['tdep'])
         shared = len(ids) > len(set(names.values()))
         res.tag('clones_share_type=%s' % shared)
